@@ -466,6 +466,32 @@ fn main() {
             "bytes" => {
                 env.bytes.insert(out, hexv(&st["hex"]));
             }
+            "key_ctor" => {
+                // the key wrappers are built through their public constructors from the given bytes; the result is what the wrapper hands back through AsRef<[u8]>
+                let b = env.bytes_of(&st["bytes"]);
+                let proto = st["proto"].as_str().unwrap_or("").to_string();
+                let role = st["role"].as_str().unwrap_or("").to_string();
+                let o = guarded(|| -> Result<String, String> {
+                    let h = |x: &[u8]| Ok(hex::encode(x));
+                    match (proto.as_str(), role.as_str()) {
+                        ("v1.public", "public") => h(PasetoAsymmetricPublicKey::<V1, Public>::from(&b[..]).as_ref()),
+                        ("v1.public", "private") => h(PasetoAsymmetricPrivateKey::<V1, Public>::from(&b[..]).as_ref()),
+                        ("v2.public", "public") => { let k = Key::<32>::from(arr::<32>(&b)); h(PasetoAsymmetricPublicKey::<V2, Public>::from(&k).as_ref()) }
+                        ("v4.public", "public") => { let k = Key::<32>::from(arr::<32>(&b)); h(PasetoAsymmetricPublicKey::<V4, Public>::from(&k).as_ref()) }
+                        ("v2.public", "private") => { let k = Key::<64>::from(arr::<64>(&b)); h(PasetoAsymmetricPrivateKey::<V2, Public>::from(&k).as_ref()) }
+                        ("v4.public", "private") => { let k = Key::<64>::from(arr::<64>(&b)); h(PasetoAsymmetricPrivateKey::<V4, Public>::from(&k).as_ref()) }
+                        ("v3.public", "private") => { let k = Key::<48>::from(arr::<48>(&b)); h(PasetoAsymmetricPrivateKey::<V3, Public>::from(&k).as_ref()) }
+                        ("v3.public", "public") => { let k = Key::<49>::from(arr::<49>(&b)); PasetoAsymmetricPublicKey::<V3, Public>::try_from(&k).map(|x| hex::encode(x.as_ref())).map_err(|e| format!("{:?}", e)) }
+                        ("v1.local", _) => h(PasetoSymmetricKey::<V1, Local>::from(Key::<32>::from(arr::<32>(&b))).as_ref()),
+                        ("v2.local", _) => h(PasetoSymmetricKey::<V2, Local>::from(Key::<32>::from(arr::<32>(&b))).as_ref()),
+                        ("v3.local", _) => h(PasetoSymmetricKey::<V3, Local>::from(Key::<32>::from(arr::<32>(&b))).as_ref()),
+                        ("v4.local", _) => h(PasetoSymmetricKey::<V4, Local>::from(Key::<32>::from(arr::<32>(&b))).as_ref()),
+                        _ => Err("unknown key constructor".into()),
+                    }
+                });
+                trace.push(json!({"key_ctor": out, "proto": proto, "role": role, "input": hex::encode(&b), "result": o.text()}));
+                env.outs.insert(out, o);
+            }
             "bytes_xor" => {
                 // a neighbour of a byte string: one byte XOR-ed with a mask (negative index counts from the end)
                 let mut b = env.bytes_of(&st["in"]);
